@@ -300,10 +300,14 @@ CHECKS['C15'] = dict(
          'remover and directly, remove via remover and directly, reset, setDispatcher/setCallbackList (same and other instance), move-construct, move-assign into empty and non-empty removers, swap, '
          'destroy in any order, some issued from inside callbacks; after every operation every target is triggered and the callbacks that run are compared with the model (responsibility sets, limbo groups '
          'for what a move-assignment destination held: either resolution accepted until the deadline); plus the remover family of the C09 fault enumeration (an allocation failure or throwing copy while a '
-         'listener is being added through a remover must not leave it attached and unrecorded); non-trivial = >=1 move-assignment or swap between removers and >=1 remover destroyed while responsible '
+         'listener is being added through a remover must not leave it attached and unrecorded) and a concurrent stress (2-4 threads add and remove their own listeners through ONE remover under the perturbing '
+         'Threading policy; afterwards exactly the kept listeners are attached and destroying the remover detaches all; TSan build); non-trivial = >=1 move-assignment or swap between removers and >=1 remover destroyed while responsible '
          'for an attached listener; distinct = trace hash',
     jobs=[J('drv_remover', 'asan17', '', 60000, 2000000, shards=8, shards_thorough=16), J('drv_remover', 'clang-asan17', '', 20000, 600000, seed_offset=1, shards=8, shards_thorough=16),
-          J('drv_fault', 'asan17-fault', '', 960, 16000, defs=['-DVF_CFG_MASK=0xc0'], opts={'kind': '6'}, seed_offset=2, shards=8, shards_thorough=16)],
+          J('drv_fault', 'asan17-fault', '', 960, 16000, defs=['-DVF_CFG_MASK=0xc0'], opts={'kind': '6'}, seed_offset=2, shards=8, shards_thorough=16),
+          J('drv_remover_mt', 'plain', '', 6000, 120000, seed_offset=3, shards=8, shards_thorough=16),
+          J('drv_remover_mt', 'tsan', '', 800, 12000, seed_offset=4, shards=8, shards_thorough=16),
+          J('drv_remover_mt', 'asan', '', 1600, 24000, seed_offset=5, shards=8, shards_thorough=16)],
     assumptions=['a moved-from remover has an unknown target until re-targeted', 'wrong-key / foreign-handle removals are not generated (documented preconditions)'],
     technique='online differential monitor with responsibility model (M-remover), g++ and clang++, ASan+UBSan',
     level_text='Exploration: hundreds of thousands of remover histories; every target is dispatched after every operation so an orphaned or prematurely detached listener shows at once.',
